@@ -80,6 +80,8 @@ func (c *Compiler) compileWebSocketEvent(event ast.WebSocketEvent, routePath str
 	}
 
 	// Optimize event body before compilation
+	// (the optimizer is shared with the other handlers: start without their facts)
+	c.optimizer.resetFacts()
 	optimizedBody := c.optimizer.OptimizeStatements(event.Body)
 
 	// Compile event body
